@@ -4,6 +4,7 @@ use crate::gen;
 use crate::model::*;
 use crate::rt::Outcome;
 use crate::world::*;
+use num_traits::CheckedSub;
 use proptest::prelude::*;
 use serde::{Deserialize, Serialize};
 use solana_program::pubkey::Pubkey;
@@ -94,6 +95,8 @@ pub enum Op {
     CollectReward { pos: u16, index: u8, v2: bool },
     SetEmissions { index: u8, #[serde(with = "crate::ser::u128s")] emissions_x64: u128 },
     FundRewardVault { index: u8, amount: u64 },
+    /// emissions chosen so that one day of emissions is the vault balance (+delta units of rate around the largest accepted rate)
+    SetEmissionsNearVault { index: u8, delta: i8 },
 }
 
 #[derive(Clone, Debug, Serialize, Deserialize, Hash, PartialEq, Eq)]
@@ -501,6 +504,19 @@ impl Hist {
                 let idx = *index as usize % nrew;
                 self.w.ix_set_reward_emissions(self.pool, idx as u8, *emissions_x64, idx % 2 == 1)
             }
+            Op::SetEmissionsNearVault { index, delta } => {
+                let nrew = self.w.pools[self.pool].rewards.len();
+                if nrew == 0 {
+                    return res;
+                }
+                let idx = *index as usize % nrew;
+                let vault = self.w.balance(&self.w.pools[self.pool].rewards[idx].vault);
+                // largest rate whose one-day emission floor(86400*e/2^64) still fits the vault
+                let e_max = (((b(vault as u128) + 1u32) << 64u32) - 1u32) / 86400u32;
+                let e = if *delta >= 0 { e_max + (*delta as u32) } else { e_max.checked_sub(&b((-*delta) as u128)).unwrap_or_default() };
+                let e: u128 = e.try_into().unwrap_or(u128::MAX);
+                self.w.ix_set_reward_emissions(self.pool, idx as u8, e, idx % 2 == 0)
+            }
             Op::FundRewardVault { index, amount } => {
                 let nrew = self.w.pools[self.pool].rewards.len();
                 if nrew == 0 {
@@ -705,10 +721,11 @@ pub fn op_strategy(with_rewards: bool) -> BoxedStrategy<Op> {
     if with_rewards {
         prop_oneof![
             70 => base,
-            12 => prop_oneof![3 => 0i32..100, 3 => 0i32..100_000, 1 => 0i32..10_000_000, 1 => -100i32..0].prop_map(Op::AdvanceClock),
+            14 => prop_oneof![6 => 0i32..100, 6 => 0i32..100_000, 3 => 0i32..10_000_000, 1 => -100i32..0].prop_map(Op::AdvanceClock),
             6 => (any::<u16>(), 0u8..3, any::<bool>()).prop_map(|(pos, index, v2)| Op::CollectReward { pos, index, v2 }),
             4 => (0u8..3, prop_oneof![1 => Just(0u128), 5 => gen::bits_u128(90), 1 => gen::bits_u128(128)]).prop_map(|(index, emissions_x64)| Op::SetEmissions { index, emissions_x64 }),
             2 => (0u8..3, gen::bits_u64(62)).prop_map(|(index, amount)| Op::FundRewardVault { index, amount }),
+            3 => (0u8..3, -2i8..=2).prop_map(|(index, delta)| Op::SetEmissionsNearVault { index, delta }),
         ]
         .boxed()
     } else {
